@@ -26,7 +26,10 @@ LEVEL = "fault_enumeration"
 RULE = ("one run = one formula (<=12 variables), one set of installed fake "
         "solvers (which may change between two calls), 1-3 bridge calls, "
         "one fault plan, one name of the temporary directory (20% unusual: "
-        "blanks, non-ASCII, dash, quote, tab, nested); in the 'cut' plans "
+        "blanks, non-ASCII, dash, quote, tab, nested); solvers may print "
+        "no model, print diagnostics on stderr, exit with 10/20, answer "
+        "before reading all their input or delete their result file; in "
+        "the 'cut' plans "
         "the "
         "death offset of the solver is enumerated over every byte of its "
         "output. A run is non-trivial if a solver process was actually "
